@@ -14,7 +14,13 @@
 // Model cases: the snapshots are written as Coq terms; C06/Corr.v evaluates the
 // model's invariant, search and sequential insert on them.
 //
-// The same program built with -race is run by the thorough tier (checks/C06.py).
+// Stream "pool": Canonical handles and maps whose keys go through kMapCanonical's
+// out-of-band branch (struct / array / interface keys, keys with Text/Binary
+// marshalers that yield the processor), i.e. through the side encoders pooled in
+// BasicHandle.sideEncPool; a few hundred goroutines (>= 8 x GOMAXPROCS) on one
+// Handle; every goroutine's bytes are compared with the bytes it gets alone.
+//
+// The same program built with -race is run by both tiers (checks/C06.py).
 package main
 
 import (
@@ -23,6 +29,7 @@ import (
 	"fmt"
 	"os"
 	"reflect"
+	"runtime"
 	"sort"
 	"strings"
 	"sync"
@@ -172,16 +179,165 @@ func keysOf(es []codec.VerifC06CacheEntry) []uintptr {
 	return out
 }
 
+// ---- stream "pool": the pooled side encoders/decoders ----
+
+// yKey renders itself through a marshaler that yields the processor, as one that locks, logs or does I/O may.
+type yKey struct{ G, I int }
+
+func (k yKey) MarshalText() ([]byte, error) {
+	runtime.Gosched()
+	return []byte(fmt.Sprintf("g%04d-i%03d", k.G, k.I)), nil
+}
+func (k *yKey) UnmarshalText(b []byte) error {
+	_, err := fmt.Sscanf(string(b), "g%04d-i%03d", &k.G, &k.I)
+	return err
+}
+func (k yKey) MarshalBinary() ([]byte, error)  { return k.MarshalText() }
+func (k *yKey) UnmarshalBinary(b []byte) error { return k.UnmarshalText(b) }
+
+type sKey struct {
+	G, I int
+	S    string
+}
+
+var poolKinds = []string{"yielding-marshaler", "struct", "array", "iface-struct"}
+
+func poolValue(kind string, g, n int) interface{} {
+	switch kind {
+	case "yielding-marshaler":
+		m := map[yKey]int{}
+		for i := 0; i < n; i++ {
+			m[yKey{g, i}] = g*1000 + i
+		}
+		return m
+	case "struct":
+		m := map[sKey]string{}
+		for i := 0; i < n; i++ {
+			m[sKey{g, i, fmt.Sprintf("s%d", i*g)}] = fmt.Sprintf("v%d-%d", g, i)
+		}
+		return m
+	case "array":
+		m := map[[3]int]int{}
+		for i := 0; i < n; i++ {
+			m[[3]int{g, i, g ^ i}] = g + i
+		}
+		return m
+	default:
+		m := map[interface{}]int{}
+		for i := 0; i < n; i++ {
+			m[sKey{g, i, "k"}] = g - i
+		}
+		return m
+	}
+}
+
+func poolStream(r *vh.Rng, rounds int, watchdog int, sum *vh.Summary) {
+	ng := 8 * runtime.GOMAXPROCS(0)
+	if ng < 256 {
+		ng = 256
+	}
+	for round := 0; round < rounds; round++ {
+		format := vh.Formats[round%len(vh.Formats)]
+		kind := poolKinds[(round/len(vh.Formats)+round)%len(poolKinds)]
+		if round < len(vh.Formats) {
+			kind = "yielding-marshaler"
+		}
+		opts := vh.Opts{"Canonical": true}
+		if format == "json" && r.Bool() {
+			opts["MapKeyAsString"] = true
+		}
+		h := vh.NewHandle(format, opts)
+		nkeys := 6 + r.Intn(10)
+		iters := 6 + r.Intn(6)
+		useIO := r.Chance(1, 3)
+		vals := make([]interface{}, ng)
+		want := make([][]byte, ng)
+		wantErr := make([]bool, ng)
+		for g := range vals {
+			vals[g] = poolValue(kind, g, nkeys)
+			wantErr[g] = codec.NewEncoderBytes(&want[g], h).Encode(vals[g]) != nil
+		}
+		type bad struct {
+			g, iter  int
+			got      []byte
+			err, pan string
+		}
+		var mu sync.Mutex
+		var bads []bad
+		var wg sync.WaitGroup
+		start := make(chan struct{})
+		for g := 0; g < ng; g++ {
+			wg.Add(1)
+			go func(g int) {
+				defer wg.Done()
+				<-start
+				for iter := 0; iter < iters; iter++ {
+					var out []byte
+					var b *bad
+					func() {
+						defer func() {
+							if x := recover(); x != nil {
+								b = &bad{g: g, iter: iter, pan: fmt.Sprint(x)}
+							}
+						}()
+						var err error
+						if useIO {
+							var buf bytes.Buffer
+							err = codec.NewEncoder(&buf, h).Encode(vals[g])
+							out = buf.Bytes()
+						} else {
+							err = codec.NewEncoderBytes(&out, h).Encode(vals[g])
+						}
+						if (err != nil) != wantErr[g] || (err == nil && !bytes.Equal(out, want[g])) {
+							b = &bad{g: g, iter: iter, got: append([]byte(nil), out...), err: fmt.Sprint(err)}
+						}
+					}()
+					if b != nil {
+						mu.Lock()
+						bads = append(bads, *b)
+						mu.Unlock()
+						return
+					}
+				}
+			}(g)
+		}
+		done := make(chan struct{})
+		go func() { wg.Wait(); close(done) }()
+		close(start)
+		cj := map[string]interface{}{"format": format, "opts": opts.String(), "goroutines": ng, "key_kind": kind, "keys": nkeys, "iters": iters, "io": useIO, "seed_index": round}
+		select {
+		case <-done:
+		case <-time.After(time.Duration(watchdog) * time.Second):
+			sum.FailC("pool", "deadlock:"+format, "goroutines encoding canonical maps on one Handle did not finish before the watchdog", cj)
+			return
+		}
+		if len(bads) > 0 {
+			b := bads[0]
+			cj["wrong_goroutines"] = len(bads)
+			cj["goroutine"], cj["iter"] = b.g, b.iter
+			cj["got"], cj["want"] = vh.Hex(b.got), vh.Hex(want[b.g])
+			cj["err"], cj["panic"] = b.err, b.pan
+			sum.FailC("pool", "sidecoder:"+format+":"+kind, "an Encode on a Canonical Handle shared by several goroutines gave bytes different from the bytes the same Encode gives alone (map keys go through the pooled side encoder)", cj)
+		}
+		sum.Count("pool."+format, fmt.Sprintf("pool/%s/%s/io%v", format, kind, useIO))
+		sum.Dist["pool.encodes"] += ng * iters
+		if round == 0 {
+			sum.Sample(cj)
+		}
+	}
+}
+
 func main() {
 	nTrials := flag.Int("trials", 60, "trials (fresh handle + fresh types each)")
 	maxG := flag.Int("maxg", 64, "max goroutines per trial")
 	casesDir := flag.String("cases", "/verif/build/c06/cases", "directory for the model case files")
 	watchdog := flag.Int("watchdog", 60, "seconds before a trial counts as deadlocked")
+	poolRounds := flag.Int("pool", 10, "rounds of the pooled-side-encoder stream (one Canonical handle, >= 8 x GOMAXPROCS goroutines each)")
 	caseTrials := flag.Int("casetrials", 1<<30, "only the first N trials are written as model cases")
 	flag.Parse()
 	seed := vh.SeedFromEnv()
 	r := vh.NewRng(seed)
-	sum := vh.NewSummary("trial = fresh Handle + fresh TypeInfos + fresh reflect.StructOf types, 2..64 goroutines released by a barrier, each running its own enc/dec ops over bytes and io; non-trivial = at least two goroutines use a common fresh type (first-use race possible); distinct by (format, goroutines bucket, types, shared types, transports, cache sizes bucket). Each trial also yields one model case per non-empty published cache slice (9 per handle)")
+	sum := vh.NewSummary("trial = fresh Handle + fresh TypeInfos + fresh reflect.StructOf types, 2..64 goroutines released by a barrier, each running its own enc/dec ops over bytes and io; non-trivial = at least two goroutines use a common fresh type (first-use race possible); distinct by (format, goroutines bucket, types, shared types, transports, cache sizes bucket). Each trial also yields one model case per non-empty published cache slice (9 per handle). pool: Canonical handle x key kind (yielding Text/Binary marshaler, struct, array, interface{} holding struct) x format, >= 8 x GOMAXPROCS goroutines each re-encoding its own map, bytes compared with the sequential bytes; distinct by (format, key kind, transport)")
 	cv := vh.NewCases(*casesDir, "From Coq Require Import List NArith.\nFrom Verif Require Import C06.Model C06.Corr.\nImport ListNotations.", "case", "mismatches", 40)
 	caseID := 0
 	gChoices := []int{2, 3, 4, 8, 16, 32, 64}
@@ -410,6 +566,7 @@ trials:
 		}
 	}
 	cv.Close()
+	poolStream(r.Fork(), *poolRounds, *watchdog, sum)
 	sum.Print()
 	os.Stdout.Sync()
 }
